@@ -385,6 +385,63 @@ fn box_round_trips<'b, T: Elem>(ctx: &mut Ctx, alloc: &mut dyn FnMut(&[u64]) -> 
     let _ = take_created();
 }
 
+/// empty ranges at the two ends of a boxed slice: `split_off(len..)` and `split_off(..0)` return an EMPTY part that
+/// sits exactly at the cut (the parts tile the buffer — `C16.split_off_buffers_disjoint` / `split_off_partitions`), so
+/// merging the two parts in their adjacent order gives the original back; an interior `k..k` leaves `self` alone.
+fn box_empty_splits<'b, T: Elem>(ctx: &mut Ctx, alloc: &mut dyn FnMut(&[u64]) -> BumpBox<'b, [T]>, len: usize) {
+    if T::ZST {
+        return;
+    }
+    let esize = std::mem::size_of::<T>();
+    for case in 0..3u8 {
+        let ks: Vec<usize> = if case == 2 { (1..len).collect() } else { vec![0] };
+        for k in ks {
+            let ids: Vec<u64> = (0..len).map(|_| ctx.fresh()).collect();
+            let mut c = alloc(&ids);
+            let _ = take_created();
+            let _ = take_log();
+            let base = c.as_ptr() as usize;
+            ctx.oracle_checks += 1;
+            *ctx.op_hist.entry("split_off(empty range)".to_string()).or_insert(0) += 1;
+            let (what, t) = match case {
+                0 => (format!("split_off({len}..) on len={len}"), c.split_off(len..)),
+                1 => (format!("split_off(..0) on len={len}"), c.split_off(..0)),
+                _ => (format!("split_off({k}..{k}) on len={len}"), c.split_off(k..k)),
+            };
+            if !t.is_empty() || VecDyn::ids(&c) != ids {
+                ctx.oracle("C16", format!("box {what}: returned {} elements, self holds {} (expected nothing / {})", t.len(), csv(&VecDyn::ids(&c)), csv(&ids)));
+            }
+            if case < 2 {
+                let want_ptr = if case == 0 { base + len * esize } else { base };
+                if t.as_ptr() as usize != want_ptr || (len > 0 && c.as_ptr() as usize != base) {
+                    ctx.oracle("C16", format!("box {what}: the empty part sits at {:#x}, the cut is at {:#x} (the parts do not tile the buffer)", t.as_ptr() as usize, want_ptr));
+                }
+                // the parts in their adjacent order merge back into the original
+                let r = catch_unwind(AssertUnwindSafe(move || if case == 0 { c.merge(t) } else { t.merge(c) }));
+                match r {
+                    Ok(m) => {
+                        if VecDyn::ids(&m) != ids || (len > 0 && m.as_ptr() as usize != base) {
+                            ctx.oracle("C16", format!("box {what} then merge: holds {} (expected {})", csv(&VecDyn::ids(&m)), csv(&ids)));
+                        }
+                        drop(m);
+                    }
+                    Err(_) => ctx.oracle("C16", format!("box {what}: merging the two parts in their adjacent order panicked (split then merge does not round-trip)")),
+                }
+            } else {
+                drop(t);
+                drop(c);
+            }
+            let mut drops = take_log();
+            drops.sort_unstable();
+            let mut want = ids.clone();
+            want.sort_unstable();
+            if drops != want {
+                ctx.oracle("C06", format!("box {what}: destructor calls {} (expected exactly {})", csv(&drops), csv(&want)));
+            }
+        }
+    }
+}
+
 /// `partition(pred)` of a boxed slice (oracle only: exact partition as multisets, count of the left part,
 /// contiguity; exactly-once drops also when the predicate panics)
 fn box_partition<'b, T: Elem>(ctx: &mut Ctx, alloc: &mut dyn FnMut(&[u64]) -> BumpBox<'b, [T]>, len: usize, panic_at: Option<usize>) {
@@ -704,6 +761,10 @@ macro_rules! split_with_settings {
                         let _pad = bump.alloc(0x55u8);
                         let mut alloc = |ids: &[u64]| -> BumpBox<[T]> { bump.alloc_iter_exact(ids.iter().map(|i| T::make(*i))) };
                         box_round_trips::<T>(ctx, &mut alloc, len, at, variant);
+                        if at == 0 && variant == 0 {
+                            ctx.next_id = 1;
+                            box_empty_splits::<T>(ctx, &mut alloc, len);
+                        }
                     }
                 }
             }
